@@ -111,6 +111,11 @@ func (s *sortedSet[ElementType, WeightType]) addSorted(element ElementType) {
 				defer s.mutex.Unlock()
 			}
 
+			// ignore updates that arrive after the element was deleted (we unsubscribe after releasing the mutex)
+			if listElement.deleted {
+				return
+			}
+
 			listElement.weight = newWeight
 
 			s.updatePosition(listElement)
@@ -120,12 +125,21 @@ func (s *sortedSet[ElementType, WeightType]) addSorted(element ElementType) {
 
 // deleteSorted deletes the given element from the sortedElements slice.
 func (s *sortedSet[ElementType, WeightType]) deleteSorted(element ElementType) {
+	// unsubscribe from weight updates without holding the mutex: unsubscribing waits for a weight update callback that
+	// is currently executed and that callback in turn waits for the mutex
+	if deletedElement, deleted := s.removeSorted(element); deleted {
+		deletedElement.unsubscribeFromWeightUpdates()
+	}
+}
+
+// removeSorted removes the given element from the sortedElements slice and marks it as deleted.
+func (s *sortedSet[ElementType, WeightType]) removeSorted(element ElementType) (deletedElement *sortedSetElement[ElementType, WeightType], deleted bool) {
 	s.mutex.Lock()
 	defer s.mutex.Unlock()
 
-	if deletedElement, deleted := s.elements.DeleteAndReturn(element); deleted {
-		// unsubscribe from weight updates
-		deletedElement.unsubscribeFromWeightUpdates()
+	if deletedElement, deleted = s.elements.DeleteAndReturn(element); deleted {
+		// weight updates that are already on their way are ignored from now on
+		deletedElement.deleted = true
 
 		// shift all elements to the right of the deleted element one position to the left
 		for i := deletedElement.index; i < len(s.sortedElements)-1; i++ {
@@ -153,6 +167,8 @@ func (s *sortedSet[ElementType, WeightType]) deleteSorted(element ElementType) {
 			}
 		}
 	}
+
+	return deletedElement, deleted
 }
 
 // updatePosition updates the position of the given element in the sortedElements slice.
@@ -235,6 +251,9 @@ type sortedSetElement[ElementType comparable, WeightType cmp.Ordered] struct {
 
 	// unsubscribeFromWeightUpdates is the function that is used to unsubscribe from weight updates.
 	unsubscribeFromWeightUpdates func()
+
+	// deleted is set when the element was removed from the sortedElements slice.
+	deleted bool
 }
 
 // newSortedSetElement creates a new sortedSetElement instance.
